@@ -19,6 +19,7 @@ package metadata
 
 import (
 	"bytes"
+	"encoding/binary"
 	"errors"
 
 	"github.com/bits-and-blooms/bloom/v3"
@@ -28,16 +29,22 @@ import (
 	log "github.com/sirupsen/logrus"
 )
 
-func readRangeIndexFromByteArray(blkRILen uint32, bbRI []byte) map[string]*structs.Numbers {
+func readRangeIndexFromByteArray(blkRILen uint32, bbRI []byte) (map[string]*structs.Numbers, error) {
 	var byteCounter uint32 = 0
 	blkRI := map[string]*structs.Numbers{}
 
 	for byteCounter < blkRILen {
 		//read RangeKeyLen
+		if blkRILen-byteCounter < 2 {
+			return nil, errors.New("readRangeIndexFromByteArray: range index too short for key length")
+		}
 		blkRangeKeyLen := utils.BytesToUint16LittleEndian(bbRI[byteCounter : byteCounter+2])
 
 		byteCounter += 2
-		//read ActualRangeKey
+		//read ActualRangeKey, RangeNumType (1 byte), min and max (8 bytes each) follow
+		if blkRILen-byteCounter < uint32(blkRangeKeyLen)+1+8+8 {
+			return nil, errors.New("readRangeIndexFromByteArray: range index too short for key and range")
+		}
 		blkActualRangeKey := string(bbRI[byteCounter : byteCounter+uint32(blkRangeKeyLen)])
 		byteCounter += uint32(blkRangeKeyLen)
 
@@ -50,7 +57,7 @@ func readRangeIndexFromByteArray(blkRILen uint32, bbRI []byte) map[string]*struc
 		blkRI[blkActualRangeKey] = blkRIToAdd
 
 	}
-	return blkRI
+	return blkRI, nil
 }
 
 func rangeIndexToBytes(blkActualRangeKey string, blkRangeNumType sutils.RangeNumType, bbBlockRI []byte, byteCounter uint32) (*structs.Numbers, uint32) {
@@ -78,12 +85,32 @@ func rangeIndexToBytes(blkActualRangeKey string, blkRangeNumType sutils.RangeNum
 	return finalRangeIndex, byteCounter
 }
 
+// A bloom is stored as m, k and the length of its bit set (big-endian uint64
+// each), followed by the words of the bit set.
+func checkBloomCmi(buf []byte) error {
+	const hdrLen = 3 * 8
+	if len(buf) < hdrLen {
+		return errors.New("checkBloomCmi: bloom cmi too short for its header")
+	}
+	if binary.BigEndian.Uint64(buf[0:8]) == 0 {
+		return errors.New("checkBloomCmi: bloom cmi with zero bits")
+	}
+	if bitsetLen := binary.BigEndian.Uint64(buf[16:24]); bitsetLen > uint64(len(buf)-hdrLen)*8 {
+		return errors.New("checkBloomCmi: bit set longer than the bloom cmi")
+	}
+	return nil
+}
+
 func getCmi(cmbuf []byte) (*structs.CmiContainer, error) {
 
 	cmic := &structs.CmiContainer{}
 
 	switch cmbuf[0] {
 	case sutils.CMI_BLOOM_INDEX[0]:
+		if err := checkBloomCmi(cmbuf[1:]); err != nil {
+			log.Errorf("getCmi: bad bloom cmi %+v", err)
+			return nil, err
+		}
 		bufRdr := bytes.NewReader(cmbuf[1:])
 		blkBloom := &bloom.BloomFilter{}
 		_, bferr := blkBloom.ReadFrom(bufRdr)
@@ -95,7 +122,11 @@ func getCmi(cmbuf []byte) (*structs.CmiContainer, error) {
 		cmic.Loaded = true
 		cmic.Bf = blkBloom
 	case sutils.CMI_RANGE_INDEX[0]:
-		blkRI := readRangeIndexFromByteArray(uint32(len(cmbuf)-1), cmbuf[1:])
+		blkRI, err := readRangeIndexFromByteArray(uint32(len(cmbuf)-1), cmbuf[1:])
+		if err != nil {
+			log.Errorf("getCmi: failed to convert range cmi %+v", err)
+			return nil, err
+		}
 		cmic.CmiType = sutils.CMI_RANGE_INDEX[0]
 		cmic.Loaded = true
 		cmic.Ranges = blkRI
